@@ -742,6 +742,22 @@ func rdCrafted(rng *Rng) []rdCraft {
 	out = append(out, rdCraft{"undersized-array-std", "std", cat(dapiDefRec(0, arch, 78, []dapiFD{fd(0, 1, 0x84)}, nil), rdData(0, []byte{7}))})
 	out = append(out, rdCraft{"undersized-array-std", "std", cat(dapiDefRec(0, arch, 78, []dapiFD{fd(0, 1, 0x84), fd(1, 2, 0x84)}, nil), rdData(0, []byte{7}, []byte{1, 2}))})
 	out = append(out, rdCraft{"undersized-array-table", "20.5.84.a;20.14.8e.a;20.3.02.-", cat(dapiDefRec(0, arch, 20, []dapiFD{fd(5, 1, 0x84), fd(14, 3, 0x8e), fd(3, 1, 0x02)}, nil), rdData(0, []byte{9}, []byte{1, 2, 3}, []byte{70}))})
+	// every base type wider than a byte as an ARRAY field of a table factory, each written with 1 … size-1 random bytes
+	// (the fallback converts to the field's base type — floats by value — and returns the one-element array)
+	{
+		bts := []byte{0x83, 0x84, 0x85, 0x86, 0x88, 0x89, 0x8b, 0x8c, 0x8e, 0x8f, 0x90}
+		szs := []int{2, 2, 4, 4, 4, 8, 2, 4, 8, 8, 8}
+		var tab []string
+		var fds []dapiFD
+		var vals [][]byte
+		for i, bt := range bts {
+			n := 1 + rng.Intn(szs[i]-1)
+			tab = append(tab, fmt.Sprintf("20.%d.%02x.a", 30+i, bt))
+			fds = append(fds, fd(byte(30+i), byte(n), bt))
+			vals = append(vals, rng.Bytes(n))
+		}
+		out = append(out, rdCraft{"undersized-array-every-type", strings.Join(tab, ";"), cat(dapiDefRec(0, arch, 20, fds, nil), rdData(0, vals...))})
+	}
 	// … and a scalar field / an unknown field written undersized (comes back as a scalar either way)
 	out = append(out, rdCraft{"undersized-scalar", "std", cat(dapiDefRec(0, arch, 20, []dapiFD{fd(253, 3, 0x86), fd(2, 1, 0x84), fd(200, 1, 0x84), fd(201, 3, 0x88), fd(202, 7, 0x89)}, nil),
 		rdData(0, []byte{1, 2, 3}, []byte{4}, []byte{5}, []byte{6, 7, 8}, rng.Bytes(7)))})
